@@ -1075,14 +1075,34 @@ public:
 
   bool is_bottom() const override { return m_product.is_bottom(); }
 
-  bool is_top() const override { return m_product.is_top(); }
+  // The Boolean-to-constraint facts (and the set of variables they can
+  // still be applied to) restrict the described states, so they take
+  // part in is_top and in the inclusion test.
+  bool is_top() const override {
+    return m_product.is_top() && m_bool_to_lincsts.is_top() &&
+           m_bool_to_refcsts.is_top() && m_bool_to_bools.is_top();
+  }
 
   bool_domain_t &first() { return m_product.first(); }
 
   Dom &second() { return m_product.second(); }
 
   bool operator<=(const bool_num_domain_t &other) const override {
-    return m_product <= other.m_product;
+    if (is_bottom()) {
+      return true;
+    } else if (other.is_bottom()) {
+      return false;
+    }
+    // (the set of unchanged variables only matters for the facts that
+    // other can still apply)
+    bool other_uses_unchanged = !(other.m_bool_to_lincsts.is_top() &&
+                                  other.m_bool_to_refcsts.is_top());
+    return m_product <= other.m_product &&
+           m_bool_to_lincsts <= other.m_bool_to_lincsts &&
+           m_bool_to_refcsts <= other.m_bool_to_refcsts &&
+           m_bool_to_bools <= other.m_bool_to_bools &&
+           (!other_uses_unchanged ||
+            m_unchanged_vars <= other.m_unchanged_vars);
   }
 
   bool operator==(const bool_num_domain_t &other) const {
